@@ -344,8 +344,8 @@ INVARIANT OnlyOwner
 TIERS = {"quick": [(2, 5), (3, 4)], "thorough": [(3, 6), (4, 5)]}
 
 
-def check(prop, tier, seed):
-    v = Verdict(prop, tier, seed)
+def check(prop, tier, seed, into=None):
+    v = into or Verdict(prop, tier, seed)
     tot = {"states": 0, "transitions": 0, "paths": 0, "replays": 0}
     for (maxent, maxops) in TIERS[tier]:
         res = run_tlc("ExitStack", cfg_text(maxent, maxops), outfiles=["edges.ndjson"], timeout=3000)
